@@ -596,3 +596,90 @@ func signKeptInSplitNumber(c *Ctx, r *Report, rule string) {
 	}
 	r.check(n > 0 && len(bad) == 0, rule, "String methods", "", fmt.Sprintf("%d functions looked at", n), "%s: for a value between -k and 0 the quotient is 0 and the text has no minus sign, so the record read back from its text has another value (LOC altitudes just below the reference spheroid)", strings.Join(uniqStrings(bad), "; "))
 }
+
+// directiveArgsNotKeywords (F77): once the zone lexer has recognised the first token of a line as a directive, it
+// looks for no type or class keyword until the end of the line. Anchored at the store that makes the first token an
+// owner (the directive classes replace that value afterwards, by a switch, a table, whatever): from there every way
+// out of Next passes `zl.rrtype = l.value != zOwner`, or `zl.rrtype = true` on the not-an-owner side of a test of
+// l.value against zOwner (rrtype is the flag that ends the keyword search; the end of the line resets it).
+func directiveArgsNotKeywords(c *Ctx, r *Report, rule string) {
+	r.rule(rule, 1, "zlexer.Next ends the keyword search for the rest of the line when the line starts with a directive")
+	fn := c.ssaFunc("zlexer.Next")
+	if fn == nil {
+		r.cerr(rule, "zlexer.Next", "function not found")
+		return
+	}
+	r.fn("zlexer.Next")
+	ow, okO := c.constInt("zOwner")
+	if !okO {
+		r.cerr(rule, "zOwner", "constant not found")
+		return
+	}
+	isValueLoad := func(v ssa.Value) bool { return anyIn(sliceOf(v), readsField("lex", "value")) }
+	// cmpOwner: v is `l.value != zOwner` (neq=true) or `l.value == zOwner` (neq=false)
+	cmpOwner := func(v ssa.Value) (neq bool, ok bool) {
+		cmp, isCmp := v.(*ssa.BinOp)
+		if !isCmp || (cmp.Op != token.NEQ && cmp.Op != token.EQL) {
+			return false, false
+		}
+		kx, isKx := constIntOf(cmp.X)
+		ky, isKy := constIntOf(cmp.Y)
+		if isKy && ky == ow && isValueLoad(cmp.X) || isKx && kx == ow && isValueLoad(cmp.Y) {
+			return cmp.Op == token.NEQ, true
+		}
+		return false, false
+	}
+	n := 0
+	var bad []string
+	for _, st := range storesToField(fn, "lex", "value") {
+		if k, isK := constIntOf(st.Val); !isK || k != ow {
+			continue
+		}
+		n++
+		type state struct {
+			b         *ssa.BasicBlock
+			directive bool // known to be on the not-an-owner side
+		}
+		seen := map[state]bool{}
+		var walk func(b *ssa.BasicBlock, from int, directive bool)
+		walk = func(b *ssa.BasicBlock, from int, directive bool) {
+			for i := from; i < len(b.Instrs); i++ {
+				switch t := b.Instrs[i].(type) {
+				case *ssa.Store:
+					if readsField("zlexer", "rrtype")(t.Addr) {
+						if neq, ok := cmpOwner(t.Val); ok && neq {
+							return
+						}
+						if bv, isB := constBool(t.Val); isB && bv && directive {
+							return
+						}
+					}
+				case *ssa.Return:
+					bad = append(bad, c.pos(t.Pos()))
+					return
+				case *ssa.If:
+					if neq, ok := cmpOwner(t.Cond); ok {
+						dirEdge, ownEdge := b.Succs[0], b.Succs[1]
+						if !neq {
+							dirEdge, ownEdge = ownEdge, dirEdge
+						}
+						_ = ownEdge // an owner, not a directive: nothing to require on this side
+						if !seen[state{dirEdge, true}] {
+							seen[state{dirEdge, true}] = true
+							walk(dirEdge, 0, true)
+						}
+						return
+					}
+				}
+			}
+			for _, sx := range b.Succs {
+				if !seen[state{sx, directive}] {
+					seen[state{sx, directive}] = true
+					walk(sx, 0, directive)
+				}
+			}
+		}
+		walk(st.Block(), instrIndex(st)+1, false)
+	}
+	r.check(n > 0 && len(bad) == 0, rule, "zlexer.Next", c.pos(fn.Pos()), "keyword search ended behind a directive", "Next can return at %s with a directive as the first token of the line and the keyword search still on: the arguments of the directive are looked up as type and class keywords, and a name that is or starts like a keyword ($ORIGIN mx, $ORIGIN types.example.org. ; c, $INCLUDE types.db sub, $GENERATE 1-2 type$ ...) is refused", strings.Join(uniqStrings(bad), ", "))
+}
